@@ -333,8 +333,18 @@ Qed.
 Lemma forallb_Forall {A} (f : A -> bool) l : forallb f l = true -> Forall (fun x => f x = true) l.
 Proof. intros H. apply Forall_forall. now apply forallb_forall. Qed.
 
+Lemma wf_bucket_is_tf b : wf_bucket b = true -> is_tf (b_tf b) = true.
+Proof. unfold wf_bucket. rewrite !andb_true_iff. now intros (((H & _) & _) & _). Qed.
+
 Lemma wf_bucket_tf b : wf_bucket b = true -> tf_ok (b_tf b).
-Proof. unfold wf_bucket. rewrite !andb_true_iff. intros ((((H & _) & _) & _) & _). now apply is_tf_ok. Qed.
+Proof. intros W. apply is_tf_ok. now apply wf_bucket_is_tf. Qed.
+
+(** every timeframe of utils.Timeframes is its own queryable timeframe (the table is in ascending order) *)
+Lemma queryable_self tf : is_tf tf = true -> queryable_tf tf =? tf = true.
+Proof.
+  unfold is_tf, Timeframes. cbn [map snd existsb]. rewrite !orb_true_iff, !Z.eqb_eq.
+  intros H. repeat (destruct H as [H|H]; [subst tf; vm_compute; reflexivity|]). discriminate H.
+Qed.
 
 Lemma wf_bucket_files b : wf_bucket b = true -> Forall (fun f => wf_file b f = true) (b_files b).
 Proof. unfold wf_bucket. rewrite !andb_true_iff. intros (_ & H). now apply forallb_Forall. Qed.
@@ -694,8 +704,7 @@ Theorem exec_query_range b s e : in_domain_C11 b s e = true ->
   exec_query b (q_go s) (q_go e) = Ok (spec_C11 b s e).
 Proof.
   unfold in_domain_C11. rewrite !andb_true_iff. intros (((W & Hs) & He) & G).
-  assert (Q : queryable_tf (b_tf b) =? b_tf b = true).
-  { unfold wf_bucket in W. rewrite !andb_true_iff in W. tauto. }
+  pose proof (queryable_self _ (wf_bucket_is_tf b W)) as Q.
   unfold exec_query, read_bucket, spec_C11. rewrite Q, (clamp_end_sane e He).
   destruct (b_var b) eqn:V.
   - now apply read_var_filter.
@@ -706,8 +715,7 @@ Lemma prop_C11_of_exec b s e : in_domain_C11 b s e = true -> prop_C11 b s e = tr
 Proof.
   intros D. pose proof (exec_query_range b s e D) as H. pose proof D as D0.
   unfold in_domain_C11 in D. rewrite !andb_true_iff in D. destruct D as (((W & _) & _) & _).
-  assert (Q : queryable_tf (b_tf b) =? b_tf b = true).
-  { unfold wf_bucket in W. rewrite !andb_true_iff in W. tauto. }
+  pose proof (queryable_self _ (wf_bucket_is_tf b W)) as Q.
   unfold in_domain_C11 in D0. rewrite !andb_true_iff in D0. destruct D0 as (((_ & _) & He) & _).
   unfold exec_query, read_bucket, spec_C11 in H. rewrite Q, (clamp_end_sane e He) in H. unfold prop_C11.
   destruct (b_var b).
